@@ -1224,6 +1224,50 @@ func c08Findings(t *testing.T, st *VStream, stats *VStats, log *logrus.Logger) {
 		w.look(t0+100*c08Sec, ka, "a.test", 1, false) // 95 s into the configured 300 s window: still served
 		st.Emit("note reuse-reload-config end", "note")
 	})
+	// (f) a reply whose first record outlives the others: CNAME 3600 s, A 30 s
+	synctest.Test(t, func(t *testing.T) {
+		w := &c08World{log: log, st: st, stats: stats}
+		st.Emit("note shortest-answer-ttl begin", "note")
+		w.cfg(c08Cfg{opt: false, stale: 60})
+		defer func() { _ = w.c.Close() }()
+		t0 := time.Now().UnixNano()
+		saved := c08OtherTTL
+		c08OtherTTL = func(uint32) uint32 { return 30 }
+		ka := w.realKey("www.example.com", 1, r0)
+		w.insn(t0, ka, "www.example.com.", 1, 3600, 40, 2, 0, 0)
+		c08OtherTTL = saved
+		w.look(t0+29*c08Sec, ka, "www.example.com", 1, false)  // both records alive
+		w.look(t0+600*c08Sec, ka, "www.example.com", 1, false) // the second record's TTL ran out 570 s ago
+		st.Emit("note shortest-answer-ttl end", "note")
+	})
+	// (g) fixed_domain_ttl written with a trailing dot
+	synctest.Test(t, func(t *testing.T) {
+		w := &c08World{log: log, st: st, stats: stats}
+		st.Emit("note fixed-ttl-trailing-dot begin", "note")
+		w.cfg(c08Cfg{opt: false, stale: 60, fixed: []c08Fixed{{"ddns.example.org.", 10}}})
+		defer func() { _ = w.c.Close() }()
+		t0 := time.Now().UnixNano()
+		ka := w.realKey("ddns.example.org", 1, r0)
+		w.insn(t0, ka, "ddns.example.org.", 1, 3600, 41, 1, 0, 0)
+		w.look(t0+9*c08Sec, ka, "ddns.example.org", 1, false)
+		w.look(t0+11*c08Sec, ka, "ddns.example.org", 1, false)
+		st.Emit("note fixed-ttl-trailing-dot end", "note")
+	})
+	// (h) a negative optimistic_cache_ttl is not a configuration
+	st.Emit("note negative-window begin", "note")
+	for _, cfg := range []c08Cfg{{opt: true, stale: -1}, {opt: false, stale: -60, max: 5}} {
+		out := VRecover(func() string {
+			c, err := NewDnsController(nil, c08Option(cfg, log))
+			if err != nil {
+				return "cfg rejected"
+			}
+			en, ttl, mx := c.currentOptimisticCacheConfig()
+			_ = c.Close()
+			return fmt.Sprintf("cfg opt=%s stale=%d max=%d", c08B(en), ttl, mx)
+		})
+		st.Emit("cfgtry "+cfg.opStr(), out)
+	}
+	st.Emit("note negative-window end", "note")
 	// (e) a burst of simultaneous requests for a name nobody asked for in hours
 	st.Emit("note concurrent-stale-ttl begin", "note")
 	for round := 0; round < 25; round++ {
@@ -1597,6 +1641,63 @@ func c08AskHistory(t *testing.T, r *VRand, st *VStream, stats *VStats, log *logr
 	})
 }
 
+// c08BigLRU: a cache far above its size limit; the victims must be exactly the least recently stored
+// (theorem `janitor_evicts_least_recently_used` holds for any size; the histories only reach 7 entries)
+func c08BigLRU(t *testing.T, st *VStream, stats *VStats, log *logrus.Logger, n, max int) {
+	synctest.Test(t, func(t *testing.T) {
+		w := &c08World{log: log, st: st, stats: stats}
+		dnsCacheJanitorInterval = 24 * 365 * 50 * time.Hour
+		c, err := NewDnsController(nil, c08Option(c08Cfg{opt: true, stale: 0, max: max}, log))
+		if err != nil {
+			panic(err)
+		}
+		w.c = c
+		defer func() { _ = w.c.Close() }()
+		out := VRecover(func() string {
+			order := make([]string, n)
+			for i := 0; i < n; i++ {
+				name := fmt.Sprintf("n%d.big.test", i)
+				key := w.c.cacheKey(name, 1)
+				answers, _, _ := c08Records(c08Fqdn(name), 1, 77, i%60000, 1, 0)
+				if err := w.c.UpdateDnsCacheTtlWithKey(key, name, 1, answers, nil, nil, 100000); err != nil {
+					return "err:" + err.Error()
+				}
+				order[i] = key
+				time.Sleep(time.Nanosecond) // distinct instants: the order of use is total
+			}
+			// use an early third again, in reverse: they become the most recent
+			for i := n/3 - 1; i >= 0; i-- {
+				msg := new(dnsmessage.Msg)
+				msg.SetQuestion(fmt.Sprintf("n%d.big.test.", i), 1)
+				w.c.LookupDnsRespCache_(msg, order[i], false)
+				time.Sleep(time.Nanosecond)
+			}
+			w.c.evictExpiredDnsCache(time.Now())
+			// recency order, oldest first: n/3 .. n-1 (by insert), then n/3-1 .. 0 (by lookup)
+			rec := append(append([]string{}, order[n/3:]...), func() []string {
+				x := make([]string, 0, n/3)
+				for i := n/3 - 1; i >= 0; i-- {
+					x = append(x, order[i])
+				}
+				return x
+			}()...)
+			left := map[string]bool{}
+			for _, k := range w.keys() {
+				left[k] = true
+			}
+			wrong := 0
+			for i, k := range rec {
+				if (i >= n-max) != left[k] {
+					wrong++
+				}
+			}
+			return fmt.Sprintf("biglru left=%d wrongly_kept_or_evicted=%d", len(left), wrong)
+		})
+		st.Emit(fmt.Sprintf("biglru n=%d max=%d", n, max), out)
+		stats.Add("lru.big_cache_entries", n)
+	})
+}
+
 func c08HeapStream(r *VRand, st *VStream, stats *VStats, n int) {
 	for it := 0; it < n; it++ {
 		sz := r.Intn(14)
@@ -1654,6 +1755,30 @@ func c08KeyStream(r *VRand, w *c08World, n int) {
 		w.keyOpClass(name, qt, cls, routes[r.Intn(len(routes))])
 		w.stats.Inc("op.key")
 	}
+	// every query type once (the table of pre-computed type strings must not merge two types)
+	for qt := 0; qt < 65536; qt++ {
+		w.keyOpClass("t.test", uint16(qt), dnsmessage.ClassINET, routes[0])
+	}
+	w.stats.Add("key.all_qtypes", 65536)
+	// upstreams that differ in one component only are different scopes (the scope string is computed
+	// here from the components, not taken from Upstream.String())
+	type upc struct {
+		scheme, host, path string
+		port               uint16
+	}
+	base := upc{"https", "dns.example.net", "/abc", 443}
+	for _, v := range []upc{{"https", "dns.example.net", "/def", 443}, {"https", "dns.example.net", "/abc", 8443},
+		{"h3", "dns.example.net", "/abc", 443}, {"https", "dns2.example.net", "/abc", 443}, {"https", "dns.example.net", "", 443}} {
+		mk := func(u upc) (*dns.Upstream, string) {
+			return &dns.Upstream{Scheme: dns.UpstreamScheme(u.scheme), Hostname: u.host, Port: u.port, Path: u.path},
+				fmt.Sprintf("%s://%s%s", u.scheme, net.JoinHostPort(u.host, fmt.Sprint(u.port)), u.path)
+		}
+		for _, u := range []upc{base, v} {
+			up, want := mk(u)
+			w.keyOpClass("a.test", 1, dnsmessage.ClassINET, c08Route{kind: "up", detail: want, up: up, idx: 1})
+			w.stats.Inc("key.upstream_component_variants")
+		}
+	}
 }
 
 func TestVerifC08(t *testing.T) {
@@ -1684,6 +1809,7 @@ func TestVerifC08(t *testing.T) {
 	})
 	c08HeapStream(r.Fork(), st, stats, nHeap)
 	c08Directed(t, st, stats, log)
+	c08BigLRU(t, st, stats, log, 9000, 4000)
 	c08Findings(t, st, stats, log)
 	c08RaceStream(t, st, stats, log, nRace)
 	for i := 0; i < nHist; i++ {
